@@ -151,20 +151,24 @@ def closeConnection (code : Int) (extra : Option Bytes) (last : Option Int) : CM
   let last := last.getD c.highestIn
   prepareForSending [Frame.goaway last code (extra.getD [])]
 
-def updateSettings (items : List (Int × Int)) : CM Unit := do
-  -- validate everything first
-  for (k, v) in items do
+/-- the up-front validation loop of `update_settings`: every identifier and value, in dict order -/
+def validateSettingsList : List (Int × Int) → Except Exc Unit
+  | [] => .ok ()
+  | (k, v) :: rest =>
     match validate_setting k v with
-    | .error e => raise (ofPyErr e)
+    | .error e => .error (ofPyErr e)
     | .ok code =>
       let code := if code == 0 && !(0 ≤ k && k ≤ 65535 && 0 ≤ v && v ≤ 4294967295) then (ErrorCodes.PROTOCOL_ERROR : Int) else code
-      if code != 0 then raise (.h2 .InvalidSettingsValueError (some code) none []) else pure ()
+      if code != 0 then .error (.h2 .InvalidSettingsValueError (some code) none []) else validateSettingsList rest
+
+def updateSettings (items : List (Int × Int)) : CM Unit := do
+  liftExcept (validateSettingsList items)
   connInput .SEND_SETTINGS
   let c ← getS
   match Settings.update c.localSettings items with
-  | (.error e, s') => do setS { c with localSettings := s' }; raise e
+  | (.error e, s') => do modifyS (fun c => { c with localSettings := s' }); raise e
   | (.ok _, s') => do
-    setS { c with localSettings := s' }
+    modifyS (fun c => { c with localSettings := s' })
     prepareForSending [Frame.settings false items]
 
 def advertiseAlternativeService (field : Bytes) (origin : Option Bytes) (sid : Option Int) : CM Unit := do
@@ -209,10 +213,10 @@ def acknowledgeReceivedData (size sid : Int) : CM Unit := do
 def dataToSend (amount : Option Int) : CM Bytes := do
   let c ← getS
   match amount with
-  | none => do setS { c with out := [] }; pure c.out
+  | none => do modifyS (fun c => { c with out := [] }); pure c.out
   | some n =>
     let k : Nat := if n < 0 then (Int.toNat (c.out.length + n)) else n.toNat
-    setS { c with out := c.out.drop k }
+    modifyS (fun c => { c with out := c.out.drop k })
     pure (c.out.take k)
 
 def clearOutboundDataBuffer : CM Unit := modifyS fun c => { c with out := [] }
